@@ -20,6 +20,8 @@ import harness
 THEOREMS = ["Grc.Cm.alloc_pseudo_range", "Grc.Cm.alloc_above_real", "Grc.Cm.alloc_pseudo_ids_distinct", "Grc.Fsm.checkCert_correct",
             # the compiler's own cmap searches, transcribed, equal the format's definition (all code points, all sizes)
             "Grc.Cm.bsearch_spec", "Grc.Cm.lookup31_eq_lookup", "Grc.Cm.lookup310_eq_lookup",
+            # the collision scan of GrcFont::ScanGlyfIds, transcribed: exactly the code points sharing a glyph, each once
+            "Grc.Cm.mem_collScan_iff", "Grc.Cm.collScan_nodup", "Grc.Cm.mem_collisions_iff", "Grc.Cm.collisions_nodup",
             # T1: the transcribed functions still have the text the transcription was made from
             "Grc.CmapGen.cmap31_text_as_modelled", "Grc.CmapGen.cmap310_text_as_modelled",
             "Grc.CmapGen.glyph_from_cmap_text_as_modelled"]
@@ -66,6 +68,7 @@ def run(tier, seed, replay=None):
                 f = dict(x.split("=") for x in l.split(" ")[1:])
                 stats["pseudos"] += int(f["pseudos"])
                 stats["fonts_meeting_cmap_search_hypothesis" if f.get("cmapEndCodesAscending") == "true" else "fonts_with_unsorted_end_codes"] += 1
+                stats["fonts_meeting_collision_scan_hypothesis" if f.get("u0000Unmapped") == "true" else "fonts_mapping_u0000"] += 1
         if fl:
             d = harness.save_case(rep, r, r["name"])
             rep.violation(r["name"], {"case": r["name"], "checker_lines": fl[:10], "gdl": r["prog"].gdl(),
@@ -107,6 +110,7 @@ def run(tier, seed, replay=None):
         "rejected_error_ids": harness.error_ids(rej), "pseudo_glyphs_checked": stats["pseudos"],
         "fonts_meeting_cmap_search_hypothesis": stats["fonts_meeting_cmap_search_hypothesis"],
         "fonts_with_unsorted_end_codes": stats["fonts_with_unsorted_end_codes"],
+        "fonts_meeting_collision_scan_hypothesis": stats["fonts_meeting_collision_scan_hypothesis"], "fonts_mapping_u0000": stats["fonts_mapping_u0000"],
         "traces_validated_against_impl": stats["fonts"], "disagreements_checked": len(rep.violations),
         "evaluations": stats["fonts"], "distinct_nontrivial": len(distinct),
         "rule": "fonts with cmap 4 / 4+12 (supplementary plane) / symbol (3,0), 1-4 code points sharing a glyph, post format 2 names; classes written with unicode(), U+, ranges, glyphid(), postscript(); AutoPseudo on/off; plus an unmapped code point with and without -g; distinct = distinct (realGlyphs, pseudos, lb, phantom, classes) summaries",
